@@ -1,4 +1,4 @@
 From Coq Require Import Extraction ExtrOcamlBasic ZArith.
-From ScV Require Import Base.CInt Gen.Consts MPI.Prog C04.AllgatherModel.
-Extraction "c04_model.ml" allgather_prog ag_prog upd slots
+From ScV Require Import Base.CInt Gen.Consts MPI.Prog C04.AllgatherModel C04.AllgatherHist.
+Extraction "c04_model.ml" allgather_prog ag_prog upd slots hist_prog call_prog
   c_SC_TAG_AG_ALLTOALL c_SC_TAG_AG_RECURSIVE_A c_SC_TAG_AG_RECURSIVE_B c_SC_TAG_AG_RECURSIVE_C c_SC_ALLGATHER_ALLTOALL_MAX.
